@@ -248,9 +248,25 @@ def exc_triple_problem(an: Analysis, f: FunctionInfo, c: ast.Call, callee_params
     from ..loader import within
 
     args = [arg_for(c, i, callee_params[i] if i < len(callee_params) else None) for i in range(3)]
-    if all(is_name(a, own[i]) for i, a in enumerate(args)):
-        return None
     d = Deps(an.prog, f)
+    if all(is_name(a, own[i]) for i, a in enumerate(args)):
+        # the parameters themselves - unless something re-binds them on the way: the only accepted re-binding is
+        # `exc_type, exc_val, exc_tb = type(exc), exc, exc.__traceback__` from the exception a handler caught
+        handlers = [h for h in f.own_nodes() if isinstance(h, ast.ExceptHandler) and h.name]
+        for i, pname in enumerate(own[:3]):
+            for kind, v in d.defs(f, pname):
+                if kind == "param":
+                    continue
+                v = unwrap(v)
+                h = next((h for h in handlers if within(v, h)), None)
+                want_ok = h is not None and (
+                    (i == 0 and isinstance(v, ast.Call) and is_name(v.func, "type") and len(v.args) == 1 and is_name(v.args[0], h.name))
+                    or (i == 1 and is_name(v, h.name))
+                    or (i == 2 and isinstance(v, ast.Attribute) and v.attr == "__traceback__" and is_name(v.value, h.name))
+                )
+                if not want_ok:
+                    return f"may receive a replaced `{pname}` (`{pname} = {stmt_text(v, 40)}`): the body's exception details do not reach it unchanged"
+        return None
 
     def res(a: ast.AST | None) -> ast.AST | None:
         a = unwrap(a) if a is not None else None
